@@ -8,13 +8,20 @@
 // units is rebuilt in a fresh store, the node is started on it, its state is dumped, the remaining
 // steps (from the interrupted one on) are delivered again and the final state is dumped.
 //
+// Stream "epochfork" (two corpus cases that run first, then seeded random histories drawn until both hash orders
+// occurred): a fork that spans an epoch boundary and is stored before the finalization, so that TWO checkpoint
+// records exist at the height of the checkpoint that is finalized afterwards (by carried links or verification
+// messages); every restart after that has to root the checkpoint tree at the finalized record and not at its
+// sibling, whichever of the two hashes sorts first (buckets epochfork-history:* and restart-on-finalized-checkpoint:*).
+//
 // Oracle (Go only, independent of the model):
 //
 //	O1 startup succeeds (no error, no panic);
 //	O2 the restarted node's state is one the crash-free node passed through: its ledger part (best block,
-//	   main-chain index, tracked utxo entries, InMainChain) and its finality part (last justified, last
-//	   finalized) each equal the crash-free node's before or after the interrupted step;
-//	O3 after re-delivery the dump equals the crash-free run's final dump.
+//	   main-chain index, tracked utxo entries, InMainChain), its finality part (last justified, last
+//	   finalized) and the statuses of the stored checkpoint records each equal the crash-free node's before or
+//	   after the interrupted step;
+//	O3 after re-delivery the dump (with the checkpoint statuses) equals the crash-free run's final dump.
 //
 // Oracle failures are classified structurally from the database at the crash point and the history; the
 // recorded classes (known_findings.json) are checkpoint-before-block (a checkpoint record without its block:
@@ -37,6 +44,7 @@ import (
 	"fmt"
 	"os"
 	"os/exec"
+	"reflect"
 	"sort"
 	"strings"
 	"time"
@@ -216,6 +224,8 @@ type Spec struct {
 	Votes  []int // heights on A after which verification messages for that block are sent
 	VoteN  []int // how many keys vote
 	Inter  int   // interleaving mode of A and B: 0 = A first, 1 = alternate, 2 = B as early as possible
+	SkipA  []int // epochfork stream: extra time slots skipped by the i-th block of A (absent: 0)
+	SkipB  []int // epochfork stream: the same for B (nil: the first block of B skips 1 or 2 slots drawn from Seed)
 	// which boundaries to test
 	From   int
 	Stride int   // 1 = all
@@ -236,6 +246,7 @@ type proj struct {
 	Index           []int
 	Utxos           []int // per tracked output: -1 absent, else height*2+spent
 	InMain          []int // labels in main chain
+	Ckpt            []int // per epoch-closing block (label order): status of its stored checkpoint record, -1 absent
 }
 
 type histOut struct {
@@ -331,6 +342,11 @@ func (x *world) project(n *cl.Node) proj {
 			p.InMain = append(p.InMain, i)
 		}
 	}
+	for i, b := range x.blocks {
+		if b.Block.Height%x.w.Opt.BlocksOfEpoch == 0 {
+			p.Ckpt = append(p.Ckpt, x.status(n, i))
+		}
+	}
 	return p
 }
 
@@ -373,6 +389,16 @@ func (x *world) deliver(n *cl.Node, s stepT) (res string, hang bool) {
 	case <-time.After(20 * time.Second):
 		return "hang", true
 	}
+}
+
+// panicText: log.Panic panics with its *logrus.Entry (time stamp, pointers): keep the message only
+func panicText(e interface{}) string {
+	if v := reflect.ValueOf(e); v.Kind() == reflect.Ptr && !v.IsNil() && v.Elem().Kind() == reflect.Struct {
+		if m := v.Elem().FieldByName("Message"); m.IsValid() && m.Kind() == reflect.String {
+			return "panic: " + m.String()
+		}
+	}
+	return fmt.Sprint(e)
 }
 
 func cloneLinks(l types.SupLinks) types.SupLinks {
@@ -462,7 +488,11 @@ func childHist(args []string) int {
 	var A, B []int
 	tip := w.Genesis
 	for i := 0; i < sp.Trunk; i++ {
-		tip = w.NewBlock(tip, nil, cl.BlockOpt{})
+		skip := 0
+		if i < len(sp.SkipA) {
+			skip = sp.SkipA[i]
+		}
+		tip = w.NewBlock(tip, nil, cl.BlockOpt{Skip: skip})
 		A = append(A, x.add(tip))
 	}
 	if sp.ForkAt >= 0 && sp.ForkLn > 0 {
@@ -472,7 +502,11 @@ func childHist(args []string) int {
 		}
 		for i := 0; i < sp.ForkLn; i++ {
 			skip := 0
-			if i == 0 {
+			if sp.SkipB != nil {
+				if i < len(sp.SkipB) {
+					skip = sp.SkipB[i]
+				}
+			} else if i == 0 {
 				skip = 1 + rng.Intn(2)
 			}
 			tip = w.NewBlock(tip, nil, cl.BlockOpt{Skip: skip})
@@ -655,7 +689,7 @@ func childHist(args []string) int {
 		func() {
 			defer func() {
 				if e := recover(); e != nil {
-					r.Startup, r.ErrText = "panic", fmt.Sprint(e)
+					r.Startup, r.ErrText = "panic", panicText(e)
 				}
 			}()
 			var err error
@@ -781,6 +815,9 @@ func tail(s string) string {
 
 func drawSpec(r *Rng, id int, stream string) Spec {
 	sp := Spec{ID: id, Stream: stream, Seed: r.Next(), Stride: 1}
+	if stream == "epochfork" {
+		return drawEpochFork(r, sp)
+	}
 	switch stream {
 	case "trunk":
 		sp.Trunk, sp.ForkAt = 5+r.Intn(8), -1
@@ -816,6 +853,83 @@ func drawSpec(r *Rng, id int, stream string) Spec {
 	return sp
 }
 
+// drawEpochFork: a fork that spans an epoch boundary, so that two checkpoints exist at one height, and the
+// finalization of one of them: branch B leaves A below height 4 and reaches at least height 4 (sometimes 8);
+// B is delivered before or interleaved with A (a block forking below the finalized checkpoint is rejected, so
+// the sibling must be stored before the finalization); A4 carries the link genesis -> A4 signed by keys 1,2,3
+// (justified whether or not the node's own vote went to B4); A8 is justified through A4, which finalizes A4,
+// either by a carried link or by verification messages; A12 likewise (finalizes A8) in part of the cases.
+// The time slots skipped by single blocks vary the hashes, so that both hash orders of the two sibling
+// checkpoints occur (the parent draws until they do).
+func drawEpochFork(r *Rng, sp Spec) Spec {
+	sp.Trunk = 9 + r.Intn(5)
+	sp.ForkAt = r.Intn(4)
+	sp.ForkLn = 4 - sp.ForkAt + []int{0, 0, 1, 1, 2, 4, 5}[r.Intn(7)]
+	sp.Inter = 1 + r.Intn(2)
+	for i := 0; i < 8; i++ {
+		k := 0
+		if r.Chance(25) {
+			k = 1
+		}
+		sp.SkipA = append(sp.SkipA, k)
+	}
+	sp.SkipB = []int{sp.SkipA[sp.ForkAt] + 1 + r.Intn(2)} // differs from A's block on the same parent
+	for i := 1; i < sp.ForkLn; i++ {
+		k := 0
+		if r.Chance(25) {
+			k = 1
+		}
+		sp.SkipB = append(sp.SkipB, k)
+	}
+	sp.Carry, sp.CarryN = []int{4}, []int{3}
+	for _, h := range []int{8, 12} {
+		switch {
+		case h == 12 && r.Chance(40):
+		case r.Chance(70):
+			sp.Carry, sp.CarryN = append(sp.Carry, h), append(sp.CarryN, 3)
+		default:
+			sp.Votes, sp.VoteN = append(sp.Votes, h), append(sp.VoteN, 3)
+		}
+	}
+	if r.Chance(30) { // the abandoned checkpoint carries a link that stays below the supermajority
+		sp.Carry, sp.CarryN = append(sp.Carry, 104), append(sp.CarryN, 1+r.Intn(2))
+	}
+	return sp
+}
+
+// siblingOrders: for every non-genesis checkpoint the crash-free node reported as last finalized and every stored
+// block of the same height (a sibling checkpoint), whether the sibling's hash sorts before or after it.
+func siblingOrders(h histOut) map[string]bool {
+	r := map[string]bool{}
+	if len(h.Dumps) == 0 {
+		return r
+	}
+	stored := map[int]bool{}
+	for i, s := range h.Steps {
+		if s.Kind == "block" && h.Effect[i] != "err" && h.Effect[i] != "orphan" {
+			stored[s.Block] = true
+		}
+	}
+	seen := map[int]bool{}
+	for _, d := range h.Dumps {
+		f := d.Fin
+		if f <= 0 || seen[f] {
+			continue
+		}
+		seen[f] = true
+		for b := range stored {
+			if b != f && h.Height[b] == h.Height[f] {
+				if h.Rank[b] < h.Rank[f] {
+					r["sibling-sorts-before-finalized"] = true
+				} else {
+					r["sibling-sorts-after-finalized"] = true
+				}
+			}
+		}
+	}
+	return r
+}
+
 type failure struct {
 	known bool
 	class string
@@ -828,6 +942,10 @@ func run(c *Ctx) error {
 	id := 0
 	// corpus: the witnesses of the recorded classes run first on every check
 	corpus := []Spec{
+		// a fork across the first epoch boundary (B3..B5 from A2, delivered before A3..), A4 finalized by A8's carried
+		// link, restarts from every boundary up to A10: B4's hash sorts before A4's (first case), after it (second)
+		{Stream: "corpus-epochfork-sibling-before", Seed: 2, Trunk: 10, ForkAt: 2, ForkLn: 3, Carry: []int{4, 8}, CarryN: []int{3, 3}, Inter: 2},
+		{Stream: "corpus-epochfork-sibling-after", Seed: 2, Trunk: 10, ForkAt: 1, ForkLn: 4, Carry: []int{4, 8}, CarryN: []int{3, 3}, Inter: 2},
 		{Stream: "corpus-checkpoint-before-block", Seed: 5, Trunk: 5, ForkAt: -1},
 		{Stream: "corpus-growing-lost", Seed: 5, Trunk: 6, ForkAt: 4, ForkLn: 1},
 		{Stream: "corpus-stored-not-adopted", Seed: 5, Trunk: 10, ForkAt: 5, ForkLn: 3, Carry: []int{108}, CarryN: []int{3}},
@@ -855,14 +973,52 @@ func run(c *Ctx) error {
 			specs[i].Stride = stride
 		}
 	}
+	replaying := false
+	if c.Replay != "" { // --replay FILE: only the history of the recorded failure, every boundary
+		var rj struct {
+			Failure struct{ Case struct{ Spec *Spec } }
+		}
+		if raw, err := os.ReadFile(c.Replay); err == nil && json.Unmarshal(raw, &rj) == nil && rj.Failure.Case.Spec != nil {
+			sp := *rj.Failure.Case.Spec
+			sp.From, sp.Stride = 0, 1
+			specs, replaying = []Spec{sp}, true
+		}
+	}
 	c.Stats.Rule = "a case (history, crash point k) counts as non-trivial when k lies strictly inside a step (between two write units of one block delivery or verification message)"
 	var fails []failure
-	for _, sp := range specs {
+	orders := map[string]int{}
+	runSpec := func(sp Spec) error {
 		cr := runChild(sp, 10*time.Minute)
 		if cr.Err != "" {
 			return fmt.Errorf("case %d: %s", sp.ID, cr.Err)
 		}
+		for o := range siblingOrders(cr.Hist) {
+			c.Stats.Count("history-finalized-checkpoint:" + o)
+			if strings.Contains(sp.Stream, "epochfork") {
+				orders[o]++
+				c.Stats.Count("epochfork-history:" + o)
+			}
+		}
 		fails = append(fails, judge(c, sp, cr)...)
+		return nil
+	}
+	for _, sp := range specs {
+		if err := runSpec(sp); err != nil {
+			return err
+		}
+	}
+	// epochfork: drawn until each hash order of (finalized checkpoint, sibling checkpoint) occurred in `want` histories
+	want, most := c.N(3, 6), c.N(12, 40)
+	for i := 0; !replaying && i < most && (i < c.N(6, 16) || orders["sibling-sorts-before-finalized"] < want || orders["sibling-sorts-after-finalized"] < want); i++ {
+		sp := drawSpec(c.Rng, id, "epochfork")
+		sp.Stride = stride
+		id++
+		if err := runSpec(sp); err != nil {
+			return err
+		}
+	}
+	if !replaying && (orders["sibling-sorts-before-finalized"] == 0 || orders["sibling-sorts-after-finalized"] == 0) {
+		return fmt.Errorf("epochfork stream: the two hash orders of sibling checkpoints did not both occur: %v", orders)
 	}
 	// unknown classes first; at most 3 witnesses per class (hlib keeps 20 failures)
 	per := map[string]int{}
@@ -948,6 +1104,12 @@ func judge(c *Ctx, sp Spec, cr caseResult) []failure {
 				carry = fmt.Sprintf("(Some %d)", lab(s.Links[0][0]))
 			}
 			steps = append(steps, fmt.Sprintf("SBlock %d %s", lab(s.Block), carry))
+		} else if h.Effect[i] == "err" && h.Bounds[i+1] == h.Bounds[i] {
+			// the crash-free node rejected the message without writing anything (its key already signed another block of
+			// this height: verifySameHeight, C18). Like the vote count this is an input of the model: label 0 is no block,
+			// so the step is "target not in the tree", which writes nothing
+			steps = append(steps, "SVote 0 0 false")
+			c.Stats.Count("vote-rejected-by-crash-free-node")
 		} else {
 			steps = append(steps, fmt.Sprintf("SVote %d %d %s", lab(s.Block), lab(s.Src), CoqBool(justified)))
 		}
@@ -964,7 +1126,7 @@ func judge(c *Ctx, sp Spec, cr caseResult) []failure {
 		c.Stats.Count("oracle-failure:" + class)
 		fails = append(fails, failure{known, class, "class=" + class + ": " + detail,
 			map[string]interface{}{"spec": sp, "crash_after_units": r.K, "interrupted_step": r.Step, "steps": h.Steps,
-				"parent": h.Parent, "height": h.Height, "unit_kinds": h.Kinds, "bounds": h.Bounds, "result": r}})
+				"parent": h.Parent, "height": h.Height, "hash_rank": h.Rank, "unit_kinds": h.Kinds, "bounds": h.Bounds, "result": r}})
 	}
 	isDesc := func(x, anc int) bool {
 		for ; x >= 0; x = h.Parent[x] {
@@ -1019,16 +1181,36 @@ func judge(c *Ctx, sp Spec, cr caseResult) []failure {
 					fail(false, "finality-off-path", fmt.Sprintf("after restart at unit %d justified/finalized = %d/%d, crash-free %d/%d before and %d/%d after the step", r.K, s.Just, s.Fin, pre.Just, pre.Fin, post.Just, post.Fin), r)
 				}
 			}
+			if ck := fmt.Sprint(s.Ckpt); ck != fmt.Sprint(pre.Ckpt) && ck != fmt.Sprint(post.Ckpt) {
+				fail(false, "checkpoints-off-path", fmt.Sprintf("after restart at unit %d the stored checkpoint statuses %v are neither the crash-free node's before (%v) nor after (%v) step %d", r.K, s.Ckpt, pre.Ckpt, post.Ckpt, r.Step), r)
+			}
+			if s.Fin > 0 {
+				for _, b := range r.Stored {
+					if b != s.Fin && h.Height[b] == h.Height[s.Fin] {
+						if h.Rank[b] < h.Rank[s.Fin] {
+							c.Stats.Count("restart-on-finalized-checkpoint:sibling-sorts-before")
+						} else {
+							c.Stats.Count("restart-on-finalized-checkpoint:sibling-sorts-after")
+						}
+					}
+				}
+			}
 			switch {
 			case r.Hang:
 				fail(false, "hang-after-restart", fmt.Sprintf("re-delivery after restart at unit %d does not return", r.K), r)
 			case r.Final == nil:
 				fail(false, "no-final-state", "", r)
-			case ledgerEq(r.Final, &final) && r.Final.Just == final.Just && r.Final.Fin == final.Fin:
+			case ledgerEq(r.Final, &final) && r.Final.Just == final.Just && r.Final.Fin == final.Fin && fmt.Sprint(r.Final.Ckpt) == fmt.Sprint(final.Ckpt):
 				c.Stats.Count("converged")
 			default:
 				f := r.Final
 				detail := fmt.Sprintf("after restart at unit %d and re-delivery from step %d: best/justified/finalized = %d/%d/%d, crash-free run %d/%d/%d", r.K, r.Step, f.Best, f.Just, f.Fin, final.Best, final.Just, final.Fin)
+				// only the stored checkpoint statuses differ (the recorded classes are recognised by the same structural conditions)
+				ckptOnly := ledgerEq(f, &final) && f.Just == final.Just && f.Fin == final.Fin
+				if ckptOnly {
+					detail += fmt.Sprintf("; statuses of the stored checkpoint records %v, crash-free run %v", f.Ckpt, final.Ckpt)
+					c.Stats.Count("differs-in-checkpoint-statuses-only")
+				}
 				W := final.Best
 				reapplied := false
 				for i := r.Step; i <= len(h.Steps); i++ {
@@ -1044,12 +1226,14 @@ func judge(c *Ctx, sp Spec, cr caseResult) []failure {
 				case r.FinLag:
 					fail(true, "finalization-in-flight", detail, r)
 				case r.SigLost && cur >= 0 && stored[cur] && h.Height[cur]%E == 0:
-					voteErased = true
+					voteErased = !ckptOnly // best/justified/finalized and the index agree: the model is still evaluated
 					fail(true, "own-vote-erased", detail+fmt.Sprintf(" (block %d was stored with the node's own vote; the re-delivered copy overwrote the header without it)", cur), r)
 				case cur >= 0 && stored[cur] && post.Best == cur && h.Height[cur] <= s.Height && f.Best != final.Best:
 					fail(true, "stored-block-not-adopted", detail+fmt.Sprintf(" (block %d was stored, the chain status was not; re-delivery returns 'already processed')", cur), r)
 				case h.Height[W]%E != 0 && stored[W] && !reapplied && f.Best != W:
 					fail(true, "growing-checkpoint-lost", detail+fmt.Sprintf(" (block %d of an unfinished epoch is stored but is no candidate of the rebuilt checkpoint tree)", W), r)
+				case ckptOnly:
+					fail(false, "checkpoint-status-differs", detail, r)
 				default:
 					fail(false, "no-convergence", detail, r)
 				}
